@@ -469,3 +469,95 @@ func TestC15RestPatch(t *testing.T) {
 		})
 	})
 }
+
+// TestC15LostResponse: identifiers after a client had to enter a datatype twice. The answer to a
+// subscribe-or-create (or create) that carried operations is lost; the retry is answered as a subscription that
+// hands the client its own stored operations back; everything the client issues afterwards must still be ordered
+// after them and must not reuse their identifiers.
+func TestC15LostResponse(t *testing.T) {
+	col := stats.New("C15", t.Name(),
+		"a client opens a List / Document / Map key (create or subscribe-or-create), issues 1-4 element-creating operations and sends its first request; the answer is lost (not applied) in a drawn number of attempts (1-2), the next one is applied; it then issues 1-4 more operations and syncs; a second client subscribes, and one of its operations addresses what the first client created; "+
+			"oracle on the stored log: no two operations share (era, clock, client id); per client the clock values increase with the sequence numbers; both clients and the server's rebuild equal the reference model of the log (an operation addressed to one element touches no other); non-trivial = the lost request had stored operations; distinct = the drawn scenario")
+	checkProp(t, "C15", col, func(c *caseCtx) {
+		rt := c.rt
+		kind := rapid.SampledFrom([]sim.Kind{sim.List, sim.Document, sim.Map}).Draw(rt, "kind")
+		idseed := rapid.Uint64Range(1, 1<<40).Draw(rt, "idseed")
+		mode := rapid.SampledFrom([]string{"create", "subscribe-or-create"}).Draw(rt, "mode")
+		w, err := newL1World(idseed, []sim.Kind{kind})
+		if err != nil {
+			c.failf("HARNESS-ERROR: %v", err)
+		}
+		defer w.close()
+		k := w.keys[0]
+		a, err := w.addClient()
+		if err != nil {
+			c.failf("HARNESS-ERROR: %v", err)
+		}
+		d := w.open(a, k, mode)
+		n1 := rapid.IntRange(1, 4).Draw(rt, "ops_before")
+		for i := 0; i < n1; i++ {
+			sim.Exec(kind, d.dt, c06CheapCall(kind, i))
+		}
+		lost := rapid.IntRange(1, 2).Draw(rt, "lost_answers")
+		c.j.Header = map[string]interface{}{"kind": kind, "id_seed": idseed, "mode": mode, "ops_before": n1, "lost_answers": lost}
+		for i := 0; i < lost; i++ {
+			ex := w.send(a, a.pc.BuildRequest(d.dt)) // stored by the server, the answer never reaches the client
+			if ex.timedOut || ex.rpcErr != nil {
+				c.failf("HARNESS-ERROR: the request whose answer is to be lost failed: %v", ex.rpcErr)
+			}
+			w.env.WaitBackground(3 * time.Second)
+		}
+		if ex := w.syncClient(a); ex == nil || exchangeProblem(a, ex) != nil {
+			c.failf("the retry after the lost answer is refused: %v", exchangeProblem(a, ex))
+		}
+		n2 := rapid.IntRange(1, 4).Draw(rt, "ops_after")
+		for i := 0; i < n2; i++ {
+			sim.Exec(kind, d.dt, c06CheapCall(kind, 10+i))
+		}
+		if ex := w.syncClient(a); ex == nil || exchangeProblem(a, ex) != nil {
+			c.failf("the sync after the re-entry is refused: %v", exchangeProblem(a, ex))
+		}
+		b, err := w.addClient()
+		if err != nil {
+			c.failf("HARNESS-ERROR: %v", err)
+		}
+		db := w.open(b, k, "subscribe")
+		if ex := w.syncClient(b); ex == nil || exchangeProblem(b, ex) != nil {
+			c.failf("the second client cannot subscribe: %v", exchangeProblem(b, ex))
+		}
+		// an operation of the second client that addresses an element of the first one by identity
+		switch kind {
+		case sim.List:
+			sim.Exec(kind, db.dt, sim.Call{M: "Delete", Pos: rapid.IntRange(0, n1+n2-1).Draw(rt, "victim")})
+		case sim.Document:
+			sim.Exec(kind, db.dt, sim.Call{M: "DeleteInObject", Key: fmt.Sprintf("b%d", rapid.IntRange(0, 6).Draw(rt, "victim"))})
+		default:
+			sim.Exec(kind, db.dt, sim.Call{M: "Remove", Key: fmt.Sprintf("b%d", rapid.IntRange(0, 6).Draw(rt, "victim"))})
+		}
+		w.noConverge = false
+		if err := w.applyL1(l1Action{K: "settle"}); err != nil {
+			c.failf("settle: %v", err)
+		}
+		log, _ := w.storedLog(k.duid)
+		seen := map[string]int{}
+		lastClock := map[string]uint64{}
+		for i, so := range log {
+			id := so.op.ID
+			if so.op.OpType != model.TypeOfOperation_TRANSACTION {
+				key := fmt.Sprintf("%d:%d:%s", id.Era, id.Lamport, id.CUID)
+				if j, dup := seen[key]; dup {
+					c.failf("the operations at log positions %d and %d share the timestamp %s (the client re-entered the datatype after a lost answer)", j+1, i+1, key)
+				}
+				seen[key] = i
+			}
+			if id.Lamport < lastClock[id.CUID] {
+				c.failf("the operation at log position %d (seq %d of %s) has clock %d, an earlier operation of the same client has %d", i+1, id.Seq, id.CUID, id.Lamport, lastClock[id.CUID])
+			}
+			lastClock[id.CUID] = id.Lamport
+		}
+		if err := w.infraProblem(); err != nil {
+			c.failf("%v", err)
+		}
+		col.Case(true, fmt.Sprint(kind, mode, n1, n2, lost), []string{"kind=" + string(kind), "mode=" + mode, fmt.Sprintf("lost-answers=%d", lost)}, func() interface{} { return c.j.Header })
+	})
+}
